@@ -610,7 +610,7 @@ func writeEvidence(prop, tier string, seed int64, a *agg, wall time.Duration, nv
 			"transitions":          len(a.trans),
 			"state_measure":        "abstract context state = (lifecycle state, batch state, repeated, pending expiry event, pending new-batch event, responses vs requests, owner kind); transition = (abstract state, step verb, abstract state)",
 			"components_real":      []string{"service module (handler, EndBlocker, genesis, keeper, types, gRPC and legacy queriers)", "app.SimApp / BaseApp ABCI (InitChain, BeginBlock, EndBlock, Commit, Query)", "SDK bank, auth, params, mint, distribution, staking, gov, crisis", "rootmulti + IAVL + cachekv + gaskv stores on an in-memory tm-db"},
-			"components_stub":      []string{"transaction runner (ValidateBasic, cache context, tx hash / msg index injection, panic recovery, atomic commit)", "ante handler (signer = 20-byte key-holding sender; no fees, no sequence numbers)", "token keeper = repository's MockTokenKeeper", "mempool, network, block proposer, BFT clock, off-chain providers/consumers/owners/strangers, a foreign module (simulated)"},
+			"components_stub":      []string{"transaction runner (ValidateBasic, cache context, tx hash / msg index injection, panic recovery, atomic commit)", "ante handler (signer = 20-byte key-holding sender; no fees, no sequence numbers)", "token keeper = repository's MockTokenKeeper; in multi-token runs a harness TokenKeeper (stake, gold/ugold scale 3, silver) plugged into the keeper's TokenKeeper seam, unit conversion by the repository's types.MockToken", "exchange-rate feed = the harness's 'oracle' module service (rate table changed and broken by trace ops)", "mempool, network, block proposer, BFT clock, off-chain providers/consumers/owners/strangers, a foreign module (simulated)"},
 			"known_findings_matched": matched,
 			"required_probes":        requiredProbes[prop],
 			"required_probes_zero":   zeroProbes(prop, a.c),
